@@ -207,7 +207,7 @@ def count_statements(files: Sequence[str]) -> int:
 # ---------------------------------------------------------------------------
 # Model evaluation inside Coq
 
-COQ_HEADER = """From Coq Require Import List Bool Arith ZArith NArith String Ascii.
+COQ_HEADER = """From Coq Require Import List Bool Arith ZArith NArith.
 Import ListNotations.
 Set Printing Width 100000.
 Set Printing Depth 100000.
@@ -242,8 +242,8 @@ def coq_mismatches(tag: str, header: str, run: str, eqb: str, ty_in: str, ty_out
             f"Definition mism := flat_map (fun c : N * ({ty_in}) * ({ty_out}) => "
             f"let '(i, a, b) := c in let r := ({run}) a in if ({eqb}) r b then [] else [(i, r)]) cases.\n"
             "Definition mism_v := Eval vm_compute in mism.\n"
-            "Eval vm_compute in (\"IDX\"%string, map fst mism_v).\n"
-            "Eval vm_compute in (\"OUT\"%string, mism_v).\n")
+            "Eval vm_compute in (111111%N, map fst mism_v).\n"
+            "Eval vm_compute in (222222%N, mism_v).\n")
         p = d / name
         p.write_text("\n".join(body))
         paths.append(p)
@@ -255,14 +255,14 @@ def coq_mismatches(tag: str, header: str, run: str, eqb: str, ty_in: str, ty_out
             keep = BUILD / f"failed_{tag}.v"
             shutil.copy(p, keep)
             raise ToolingError(f"coqc failed on generated cases ({keep}):\n{out[-3000:]}")
-        m = re.search(r'= \("IDX"%string,\s*(.*?)\)\s*:\s', out, flags=re.S)
+        m = re.search(r'= \(111111%N,\s*(.*?)\)\s*:\s', out, flags=re.S)
         if not m:
             raise ToolingError(f"cannot parse coq output:\n{out[-2000:]}")
         idxs = [int(x) for x in re.findall(r"(\d+)%N", m.group(1))]
         if not idxs and m.group(1).strip() not in ("[]", "nil"):
             idxs = [int(x) for x in re.findall(r"\d+", m.group(1))]
         raw = ""
-        m2 = re.search(r'= \("OUT"%string,\s*(.*)\)\s*:\s', out, flags=re.S)
+        m2 = re.search(r'= \(222222%N,\s*(.*)\)\s*:\s', out, flags=re.S)
         if m2:
             raw = m2.group(1)
         for i in idxs:
